@@ -36,6 +36,8 @@ class RecursionSpec():
         """
         recursion_spec = format_spec[:2]
         self.has_recursed = False
+        # conversion (!r !s !a) still to apply, if it had to wait for recursion
+        self.conversion = None
         self.is_set = False
         self.is_recursive = False
         self.is_flat = False
@@ -238,8 +240,13 @@ class RecursiveFormatter(Formatter):
                         obj, args, kwargs, used_args, None, True)
                     recursion_spec.has_recursed = True
 
-                # do any conversion on the resulting object
-                obj = self.convert_field(obj, conversion)
+                # do any conversion on the resulting object - unless it might
+                # still recurse by default as a single expression: the
+                # conversion then applies after that recursion, not before it.
+                if recursion_spec.has_recursed or recursion_spec.is_flat:
+                    obj = self.convert_field(obj, conversion)
+                else:
+                    recursion_spec.conversion = conversion
 
                 # only decide whether to format once sure that this is a
                 # string and not a single object. thus, add to list, deal with
@@ -260,6 +267,7 @@ class RecursiveFormatter(Formatter):
                     obj = self._get_formatted_iterable(
                         obj, args, kwargs, used_args, None,
                         recursion_spec.is_recursive)
+                    obj = self.convert_field(obj, recursion_spec.conversion)
 
                 # if format_spec explicitly specified, can assume caller DOES
                 # want the string conversion that format_spec does.
@@ -273,8 +281,10 @@ class RecursiveFormatter(Formatter):
             # it must be a string with multiple formatting expressions in it
             return ''.join([obj
                             if is_literal
-                            else self.format_field(obj,
-                                                   recursion_spec.format_spec)
+                            else self.format_field(
+                                self.convert_field(obj,
+                                                   recursion_spec.conversion),
+                                recursion_spec.format_spec)
                             for obj, is_literal, recursion_spec in result])
 
     def _get_formatted_iterable(self, obj, args, kwargs, used_args, memo=None,
